@@ -162,6 +162,30 @@ fn psbt_mutations(u: &Universe) -> Vec<(String, Psbt)> {
     p.inputs[0].tap_merkle_root = Some(bitcoin::taproot::TapNodeHash::from_byte_array([7; 32]));
     p.inputs[0].tap_internal_key = Some(u.xonly[3]);
     out.push(("taproot_fields_inconsistent".to_string(), p));
+    // hash preimages of unusual length, recorded under the hash they really have (a structurally
+    // valid PSBT: the map only requires that the value hashes to its key), and empty / odd signatures
+    for kind in ["sha256", "hash256", "ripemd160", "hash160"] {
+        for len in [0usize, 1, 31, 33, 64] {
+            let pre: Vec<u8> = (0..len).map(|q| (q as u8).wrapping_mul(7).wrapping_add(1)).collect();
+            let digest = crate::uni::hash_bytes(kind, &pre);
+            let ds = format!("wsh(and_v(v:pk({}),{}({})))", u.key_str(1, "segwitv0"), kind, crate::uni::hex(&digest));
+            let dh = match Descriptor::<DefiniteDescriptorKey>::from_str(&ds) {
+                Ok(x) => x,
+                Err(_) => continue,
+            };
+            let mut p = mk(0);
+            p.inputs[0].witness_utxo = Some(TxOut { value: Amount::from_sat(5000), script_pubkey: dh.script_pubkey() });
+            p.inputs[0].witness_script = dh.explicit_script().ok();
+            use bitcoin::hashes::Hash as _;
+            match kind {
+                "sha256" => { p.inputs[0].sha256_preimages.insert(bitcoin::hashes::sha256::Hash::from_slice(&digest).unwrap(), pre.clone()); }
+                "hash256" => { p.inputs[0].hash256_preimages.insert(bitcoin::hashes::sha256d::Hash::from_slice(&digest).unwrap(), pre.clone()); }
+                "ripemd160" => { p.inputs[0].ripemd160_preimages.insert(bitcoin::hashes::ripemd160::Hash::from_slice(&digest).unwrap(), pre.clone()); }
+                _ => { p.inputs[0].hash160_preimages.insert(bitcoin::hashes::hash160::Hash::from_slice(&digest).unwrap(), pre.clone()); }
+            }
+            out.push((format!("{}_preimage_len_{}", kind, len), p));
+        }
+    }
     out
 }
 
